@@ -17,7 +17,7 @@ func sameStrings(a, b []string) bool {
 	return true
 }
 
-// VerifC13Relayers: a registry of two or three relayers (arbitrary 3-byte addresses in any order, one or two chains each) is
+// VerifC13Relayers: a registry of two or three relayers (arbitrary 8-byte addresses in any order, one or two chains each) is
 // exported record by record as registered, imported into an empty store as the same records, and exported again identically.
 func VerifC13Relayers() {
 	rt.Opt("structured-keys")
@@ -28,7 +28,7 @@ func VerifC13Relayers() {
 	n := rt.IntRange("relayers", 2, 3)
 	var regs []types.IdentifiedRelayer
 	for i := 0; i < n; i++ {
-		r := types.IdentifiedRelayer{Address: rt.StrN("relayer.address", 3)}
+		r := types.IdentifiedRelayer{Address: rt.StrN("relayer.address", 8)} // the shortest strings bech32 admits
 		for _, o := range regs {
 			rt.Assume(o.Address != r.Address)
 		}
@@ -38,6 +38,7 @@ func VerifC13Relayers() {
 			r.Addresses = append(r.Addresses, rt.Str("relayer.counterparty"))
 		}
 		regs = append(regs, r)
+		c13AssumeRegistrable(r.Address, r.Chains, r.Addresses)
 		k.RegisterRelayers(src, r.Address, r.Chains, r.Addresses)
 	}
 	gs := ExportGenesis(src, k)
